@@ -28,7 +28,7 @@ CLAIM = {
  "text": "Necessary conditions of bridge detection and of the mapping update, decided on the typed HIR of src/specialized_methods/mod.rs: "
          "(R15.1) the conjunction of all filter predicates of the chain over entry.methods equals `is_synthetic && (is_bridge || "
          "is_potential_bridge(..).unwrap_or(false))` for all 8 rows, with is_potential_bridge receiving (synthetic method, its access, callee) "
-         "in that order; the callee is looked up under the synthetic method in a map of *sets* and kept iff `len() == 1`, else None; tuple "
+         "in that order; the callee is looked up under the synthetic method in a map of *sets* and kept iff `len() == 1` of that very set (no step between the lookup and the size test narrows it), else None; tuple "
          "roles flow unchanged into bridge_to_specialized (synthetic -> callee) and specialized_to_bridge (callee -> ..); "
          "is_potential_bridge returns Ok(false) early exactly for private|final|static (8 + 9 flag rows), on arity mismatch, on the first "
          "position i in 0..len with !compat(bridge[i], specialized[i]), and its result is the return table (Some,Some)->compat(bridge, "
